@@ -235,6 +235,8 @@ type srvState struct {
 	validStarted  int
 	nextGates     map[int]*Gate // handler index -> gate opened when the next valid handler starts
 	blockedRule   string
+	drained       *Gate
+	allScheduled  bool
 	handlerSleep  []time.Duration
 	waiters       int
 }
@@ -274,6 +276,8 @@ func (st *srvState) start(tier string) {
 	closeKind := t.Weighted(4, 3, 3) // 0: close at the end, 1: Close at a drawn point, 2: read error at a drawn point
 	s.GoTask("main", func() {
 		st.conn = NewConn(s, "sconn", &net.UDPAddr{IP: net.IPv4zero, Port: 67})
+		st.drained = NewGate(s, "srv.drained")
+		st.conn.OnIdle = st.checkDrained
 		st.net = NewNet(s)
 		st.conn.OnRead = func(d dgram, nread int) {
 			b := append([]byte(nil), d.b[:nread]...)
@@ -298,6 +302,7 @@ func (st *srvState) start(tier string) {
 			s.LeaveSUT()
 			st.serveErr = err
 			st.serveReturned = true
+			st.drained.Open()
 			st.serveRetSeq = s.Ev("serve.return", -1, 0, fmt.Sprint(err), nil)
 		})
 		// traffic
@@ -322,23 +327,14 @@ func (st *srvState) start(tier string) {
 		if stopAt == n || (closeKind != 0 && n == 0) {
 			st.scheduleStop(closeKind, at+ms(1), closeFn, j)
 		}
-		// wait until the traffic has been consumed (or the server stopped); a loop that
-		// stopped reading while handlers still run is a violation, not a hang
-		deadline := at + 2*time.Second
-		for {
-			sleep(ms(1), siteSrvMain)
-			if st.serveReturned {
-				break
-			}
-			if st.delivered == n && st.conn.Pending() == 0 && st.conn.ReaderWaiting() {
-				break
-			}
-			if s.Now() > deadline {
-				st.blockedRule = fmt.Sprintf("the serve loop stopped consuming datagrams: %d of %d delivered datagrams unread %v after the last delivery, Serve has not returned (handlers running: %d)",
-					st.conn.Pending(), n, s.Now()-at, st.running())
-				break
-			}
-		}
+		// Wait until the traffic has been consumed or the server has stopped. This is
+		// event driven (no virtual-time deadline: the stalled-task fault moves the clock
+		// while tasks are ready): a loop that stops reading while handlers still wait
+		// for the next datagram leaves nothing runnable, which the scheduler reports
+		// as a deadlock.
+		st.allScheduled = true
+		st.checkDrained()
+		st.drained.Wait()
 		s.Stimulus()
 		s.Ev("gates.open", -1, 0, "", nil)
 		for _, g := range st.nextGates {
@@ -355,6 +351,14 @@ func (st *srvState) start(tier string) {
 		j.Wait()
 		st.net.Stop(true)
 	})
+}
+
+// checkDrained opens the gate main waits on once every planned datagram has been
+// delivered and the reader has come back to an empty queue.
+func (st *srvState) checkDrained() {
+	if st.allScheduled && st.delivered == st.planned && st.conn.Pending() == 0 && st.conn.ReaderWaiting() {
+		st.drained.Open()
+	}
 }
 
 func (st *srvState) running() int {
